@@ -488,6 +488,11 @@ int f(int n, char s[static n + 1]) { return s[n]; }
 int f(int n, int a[static 3], int b[const 3], int c[restrict], int d[volatile restrict static 2]) { return a[0] + b[0] + c[0] + d[0] + n; }
 typedef int F(int); F f; int f(int x) { return x; } F g, *pg; int g(int x) { return -x; }
 typedef int F(int); int h(void) { F f; return f(1); } int f(int x) { return x; }
+typedef void V; int f(V); double half(double), twice(double), pi = 3.0; int g(V) { return 1; } int x1 = 1; static int x2;
+typedef void V; V g(V); V g(V) { } int x = 1; int y = 2; int f(V) { return x + y; }
+int pick(int n, int (**rows)[n], int i, int j, int k) { return rows[k][i][j]; }
+int pick2(int n, int (*blk[])[n], int i) { return (*blk[i])[1]; }
+int pick3(int n, int m, long (***p)[n][m]) { return (**p)[1][1][1] + sizeof(***p); }
 double half(double), twice(double), pi = 3.0; int a1(void), *a2(void), (*a3)(void), a4; int a1(void) { return a4; }
 int f(void) { int l1(void), l2(int); return l1() + l2(2); }
 static int s1(void), s2(void); static int s1(void) { return s2(); } static int s2(void) { return 1; } extern int e1(int), e2(int);
@@ -511,6 +516,10 @@ def valid_cases(rng, n):
         if k == 6:
             if i // 7 < len(VLA):
                 res.append(('valid-idiom', VLA[i // 7] + '\n'))
+                # the same idiom followed by declarations that only work at file scope: whatever the idiom opened (a scope, a pending
+                # state) must have been closed again
+                if 'zz_tail' not in VLA[i // 7] and 'main' not in VLA[i // 7]:
+                    res.append(('valid-idiom-then-file-scope', VLA[i // 7] + '\nint zz_tail_f(void), zz_tail_g(int), zz_tail_v = 3; int zz_tail_f(void) { return zz_tail_v; } static int zz_tail_s; int zz_tail_s2 = 1; typedef int zz_tail_t; zz_tail_t zz_tail_v2;\n'))
             else:
                 # a random parameter list in which later parameters use earlier ones in their array sizes
                 names = ['n', 'm', 'k']
